@@ -205,7 +205,14 @@ fn run(rng: &mut Rng, _idx: u64, tier: Tier) -> CaseOut {
     let is_prop = |p: &str| world.net.names.iter().any(|n| n == p);
     let expect = |extended: bool, out: &mut CaseOut, tally: bool| -> Option<bool> {
         // Some(true) = must be Err, Some(false) = must be Ok, None = only "no panic" required
-        let f = syn::parse(&input, extended).ok()?;
+        // a string outside the grammar must be answered with an error (the reference front-end is validated against
+        // the library's parsers on millions of strings by C05)
+        let Ok(f) = syn::parse(&input, extended) else {
+            if tally {
+                out.count("expect_err_not_in_grammar");
+            }
+            return Some(true);
+        };
         let mut reasons: Vec<&str> = Vec::new();
         match syn::bind(&f, &is_prop) {
             Ok(_) => {}
@@ -234,8 +241,9 @@ fn run(rng: &mut Rng, _idx: u64, tier: Tier) -> CaseOut {
     };
     let exp_ext = expect(true, &mut out, true);
     let exp_plain = expect(false, &mut out, false);
-    out.nontrivial = exp_ext.is_some();
-    if exp_ext.is_none() {
+    let in_grammar = syn::parse(&input, true).is_ok();
+    out.nontrivial = in_grammar;
+    if !in_grammar {
         out.count("ref_rejected_inputs");
     }
 
